@@ -552,6 +552,9 @@ func (e *Explorer) intrinsic(it *Interp, name string, args []Value) Value {
 		it.onDivLabel = args[0].(string)
 		it.onDivFinding = args[1].(string)
 		return nil
+	case "vnConcurrently":
+		it.callValue(args[0], nil)
+		return nil
 	case "vnFeasible":
 		// is the path condition (with all assumptions so far) satisfiable?
 		r := e.s.CheckPath()
